@@ -25,8 +25,9 @@
   text, and the bindings visible afterwards are exactly those of the specification's environment — in
   particular a `let` is visible to the end of its block and not after it, and shadows an outer name only
   there; whenever the specification yields an error the model yields an error.  Expressions are those of
-  Props/C01's fragment: access chains, list / map literals, the builtins isNonnull / length / strContains /
-  hasData / range / min / max, all operators.
+  Props/C01's fragment at full width (`C01.fragO true`): `$ij`, access chains, list / map literals, the builtins
+  isNonnull / length / strContains / hasData / range / min / max / keys / augmentMap, all operators — the
+  ordering comparisons `< > <= >=` included.
 
   data="all": `Rel` carries, next to the bindings, `EntRel`: the frames `alldata` passes from the running
   scope bind exactly the specification's `entry` bindings, and the top (let) frame is not among them — so
@@ -45,7 +46,14 @@
   `foreach_over_value_refines` / `list_variable_agrees` are the {foreach}-over-a-value statements of the
   earlier rounds (now instances of the fragment: `forc_core` with `ValSim.of_var`).
 
-  Still outside (exactly): what is outside Props/C01's expression fragment — `$ij`, index / isFirst / isLast,
+  A {template} tag inside a body is outside both the fragment (`cfrag`) and the model (Model/Eval.lean header:
+  `error`; checked on the real code by the C02exec family `nested-template-tag(impl-only)`); a /** */ comment
+  inside a body renders nothing on both sides (/repo 79017f3) and is part of the fragment.
+
+  `$ij` (the injected data, the same in every template of the render) is inside: `render_refines_lexical_partial`
+  takes the specification's injected bindings to be the interpreter's (`hij`).
+
+  Still outside (exactly): what is outside Props/C01's expression fragment — index / isFirst / isLast,
   round / floor / ceiling, randomInt, a map literal repeating a key (except as {call} data).
 
   `loop_hides_only_its_variable`: a loop over `$x` changes the lookup of no variable name other than `x` (the
@@ -58,7 +66,14 @@ import SoyVerif.Lemmas.RangeRefine
 namespace SoyVerif.Props.C02Spec
 open SoyVerif SoyVerif.Model SoyVerif.Model.Eval SoyVerif.Refine
 open SoyVerif.Spec.Eval (Val Out)
-open SoyVerif.Props.C01 (frag EnvRel)
+open SoyVerif.Props.C01 (EnvRel)
+
+/-- the expression fragment of Props/C01.lean at full width: `C01.fragO true`, the ordering comparisons
+    `< > <= >=` included (`C01.eval_refines_spec_ordering`; `C01.ordExact` is a theorem).  The refinement
+    below uses nothing about expressions but that theorem: whatever Props/C01 proves for its fragment is
+    inherited here. -/
+abbrev frag (e : Expr) : Bool := C01.fragO true e
+
 open SoyVerif.Props.C02 (ScopeOk)
 
 def optFrag : Option Expr → Bool
@@ -107,6 +122,7 @@ def cfrag : Cmd → Bool
   | .letValue _ _ e => frag e
   | .letContent _ _ b => bfrag b
   | .headerParam _ _ _ _ _ _ => true
+  | .soyDoc _ _ => true
   | _ => false
 def bfrag : Block → Bool
   | .mk _ cs => csFrag cs
@@ -177,7 +193,7 @@ theorem Rel.of_ext {g : GEnv} {entry : Spec.Eval.Binds} {ctx : Scope} {st st' : 
     (h : Rel g entry ctx st env) (e : Ext W st st') (hok : ScopeOk ctx st) (hW : ∀ f ∈ ctx, ¬ W f.ref) :
     Rel g entry ctx st' env := by
   have hl := lookup_ext_W e ctx hok hW
-  refine ⟨⟨fun k hk => ?_, h.base.globals⟩, ?_⟩
+  refine ⟨⟨fun k hk => ?_, h.base.globals, h.base.ij⟩, ?_⟩
   · show absV (lookup st'.heap ctx k) = _
     rw [hl k]; exact h.base.vars k hk
   · obtain ⟨f, r, sc, hc, hf, ha, hne, hlt, hfr⟩ := h.ent
@@ -187,7 +203,7 @@ theorem Rel.of_ext {g : GEnv} {entry : Spec.Eval.Binds} {ctx : Scope} {st st' : 
 
 theorem Rel.of_heap {g : GEnv} {entry : Spec.Eval.Binds} {ctx : Scope} {st st' : St} {env : Spec.Eval.Env}
     (h : Rel g entry ctx st env) (hh : st'.heap = st.heap) : Rel g entry ctx st' env := by
-  refine ⟨⟨fun k hk => ?_, h.base.globals⟩, ?_⟩
+  refine ⟨⟨fun k hk => ?_, h.base.globals, h.base.ij⟩, ?_⟩
   · show absV (lookup st'.heap ctx k) = _
     rw [hh]; exact h.base.vars k hk
   · obtain ⟨f, r, sc, hc, hf, ha, hne, hlt, hfr⟩ := h.ent
@@ -204,7 +220,7 @@ theorem EntRel.of_ext_top {entry : Spec.Eval.Binds} {ctx : Scope} {st st' : St} 
 theorem Rel.pushed {g : GEnv} {entry : Spec.Eval.Binds} {ctx : Scope} {st : St} {env : Spec.Eval.Env}
     (h : Rel g entry ctx st env) (hok : ScopeOk ctx st) : Rel g entry (push ctx st).1 (push ctx st).2 env := by
   obtain ⟨hctx1, _, hext1, _⟩ := push_spec ctx st
-  refine ⟨⟨fun k hk => ?_, h.base.globals⟩, ?_⟩
+  refine ⟨⟨fun k hk => ?_, h.base.globals, h.base.ij⟩, ?_⟩
   · show absV (lookup (push ctx st).2.heap (push ctx st).1 k) = _
     rw [lookup_push ctx st hok k]; exact h.base.vars k hk
   · obtain ⟨f, r, sc, hc, hf, ha, hne, hlt, hfr⟩ := h.ent
@@ -268,7 +284,7 @@ theorem evalIn_sim {g : GEnv} {ctx : Scope} {st : St} {env : Spec.Eval.Env} (hr 
     (hf : frag e = true) :
     (∀ v, Spec.Eval.eval env e = .val v → ∃ mv st1, evalIn g e ctx st = some (mv, st1) ∧ absV mv = v ∧ st1.heap = st.heap ∧ st1.out = st.out) ∧
     (Spec.Eval.eval env e = .error → evalIn g e ctx st = none) := by
-  have h := C01.eval_refines_spec_partial hr.base e hf st.next
+  have h := C01.eval_refines_spec_ordering hr.base e hf st.next
   refine ⟨fun v hv => ?_, fun herr => ?_⟩
   · obtain ⟨mv, n', h1, h2⟩ := h.1 v hv
     exact ⟨mv, { st with next := n' }, by simp [evalIn, h1], h2, rfl, rfl⟩
@@ -290,7 +306,7 @@ theorem evalArgs_sim {m : EEnv} {env : Spec.Eval.Env} (hr : EnvRel m env) :
     exact ⟨fun vs h => by simp only [Out.val.injEq] at h; exact ⟨[], n, rfl, by rw [← h]; rfl⟩, fun h => by simp at h⟩
   | .cons e r, hf, n => by
     simp only [fragList, Bool.and_eq_true] at hf
-    have he := C01.eval_refines_spec_partial hr e hf.1 n
+    have he := C01.eval_refines_spec_ordering hr e hf.1 n
     rw [Spec.Eval.evalList, evalArgs]
     refine ⟨fun vs hv => ?_, fun herr => ?_⟩
     · obtain ⟨v, hv1, hv⟩ := C01.bind_val hv
@@ -368,7 +384,7 @@ theorem evalMapItems_sim {m : EEnv} {env : Spec.Eval.Env} (hr : EnvRel m env) :
     exact ⟨fun B h => by simp only [Out.val.injEq] at h; exact ⟨[], n, rfl, by rw [← h]; intro k; rfl⟩, fun h => by simp at h⟩
   | .cons key e r, hf, n => by
     simp only [mapFrag, Bool.and_eq_true] at hf
-    have he := C01.eval_refines_spec_partial hr e hf.1 n
+    have he := C01.eval_refines_spec_ordering hr e hf.1 n
     rw [Spec.Eval.evalMap, evalMapItems]
     refine ⟨fun B hv => ?_, fun herr => ?_⟩
     · obtain ⟨v, hv1, hv⟩ := C01.bind_val hv
@@ -646,7 +662,7 @@ theorem find_bind (env : Spec.Eval.Env) (name : Bytes) (v : Val) (k : Bytes) :
 theorem Rel.set {ctx : Scope} {st st2 : St} {env : Spec.Eval.Env} {name : Bytes} {mv : Value}
     (hr : Rel g entry ctx st env) (hown : Own ctx st) (hs : Eval.set ctx st name mv = some st2) :
     Rel g entry ctx st2 (env.bind name (absV mv)) := by
-  refine ⟨⟨fun k hk => ?_, hr.base.globals⟩, hr.ent.of_ext_top (set_ext hown hs)⟩
+  refine ⟨⟨fun k hk => ?_, hr.base.globals, hr.base.ij⟩, hr.ent.of_ext_top (set_ext hown hs)⟩
   show absV (lookup st2.heap ctx k) = _
   rw [lookup_set hown hs k, find_bind]
   split
@@ -725,7 +741,7 @@ theorem loop_agree (body : Run) (sbody : Spec.Eval.Env → Out Bytes) (hgood : G
             intro k
             rw [lookup_set own3 h4 k, lookup_set own2 h3 k, lookup_set hown1 h2 k, lookup_push ctx st hok k]
           have hr4 : Rel g entry (push ctx st).1 st4 { (env.bind var (absV x)) with loops := (var, i, lastN) :: env.loops } := by
-            refine ⟨⟨fun k hk => ?_, hr.base.globals⟩, (hr.pushed hok).ent.of_ext_top e4⟩
+            refine ⟨⟨fun k hk => ?_, hr.base.globals, hr.base.ij⟩, (hr.pushed hok).ent.of_ext_top e4⟩
             show absV (lookup st4.heap (push ctx st).1 k) = (env.bind var (absV x)).lookup k
             rw [hlk k, find_bind]
             have n1 : (k == var ++ sIndexSuffix) = false := by
@@ -1324,7 +1340,7 @@ theorem call_core (callee : Registry.Tmpl) (hmem : callee ∈ reg) (ps : ParamLi
       rw [hc1, hs2', lookup_push (⟨n, true⟩ :: sc) P hsc k]
       simp [lookup]
     have hrc : Rel g (R ++ B) cctx s2 { vars := R ++ B, loops := [], ij := env.ij, globals := env.globals } := by
-      refine ⟨⟨fun k _ => ?_, hglob⟩, ?_⟩
+      refine ⟨⟨fun k _ => ?_, hglob, hrel.base.ij⟩, ?_⟩
       · show absV (lookup s2.heap cctx k) = _
         rw [hlk k]; exact hpf k
       · -- the callee's entry data: its param frame over the passed frames
@@ -1363,6 +1379,9 @@ theorem cmd_agree : (c : Cmd) → cfrag c = true → ∀ (ctx : Scope) (st : St)
     rw [execCmd, Spec.Eval.renderCmd]
     exact ⟨rfl, by simp, hr⟩
   | .headerParam _ _ _ _ _ _, _, ctx, st, env, hr, _, _ => by
+    rw [execCmd, Spec.Eval.renderCmd]
+    exact ⟨rfl, by simp, hr⟩
+  | .soyDoc _ _, _, ctx, st, env, hr, _, _ => by
     rw [execCmd, Spec.Eval.renderCmd]
     exact ⟨rfl, by simp, hr⟩
   | .print pos arg dirs, hf, ctx, st, env, hr, _, _ => by
@@ -1747,7 +1766,6 @@ theorem cmd_agree : (c : Cmd) → cfrag c = true → ∀ (ctx : Scope) (st : St)
           st.heap.length sc entry own0 (by simp) (fun x hx => by have := hlt0 x hx; simp; omega) hp hr.base.globals hrel)
   | .namespace .., hf, _, _, _, _, _, _ => by simp [cfrag] at hf
   | .template .., hf, _, _, _, _, _, _ => by simp [cfrag] at hf
-  | .soyDoc .., hf, _, _, _, _, _, _ => by simp [cfrag] at hf
 /-- a block: `walkBlock` against the specification's `renderBlock` -/
 theorem body_agree : (b : Block) → bfrag b = true → ∀ (ctx : Scope) (st : St) (env : Spec.Eval.Env),
     Rel g entry ctx st env → ScopeOk ctx st →
@@ -2288,7 +2306,8 @@ theorem execute_some (g : GEnv) (name : Bytes) (data : Frame) (fuel : Nat) (t : 
     exactly that text; whenever it yields an error, `execute` fails. -/
 theorem render_refines_lexical_partial (g : GEnv) (hob : g.oblig = []) (hfr : regFrag g.reg)
     (name : Bytes) (data : Frame)
-    (fuel : Nat) (ij : Option Spec.Eval.Binds) (hasBundle : Bool) (dsem : Option Spec.Eval.LibSem)
+    (fuel : Nat) (ij : Option Spec.Eval.Binds) (hij : (g.ij.map fun p => absK p.2) = ij)
+    (hasBundle : Bool) (dsem : Option Spec.Eval.LibSem)
     (hmsg : BundleOk g hasBundle dsem) (hdir : DirOk g (Spec.Eval.dirsOf dsem)) :
     match Spec.Eval.render g.reg (absK g.globals) ij hasBundle name (absK data) fuel dsem with
     | .val out => (execute g name data fuel).cls = .ok ∧ (execute g name data fuel).chunks.flatten = out
@@ -2308,7 +2327,7 @@ theorem render_refines_lexical_partial (g : GEnv) (hob : g.oblig = []) (hfr : re
     have hrel : Rel g (absK data) [⟨1, false⟩, ⟨0, true⟩]
         { heap := [⟨data, true⟩, ⟨[], false⟩], out := [], next := freshBase g data, foreign := 0 }
         { vars := absK data, loops := [], ij := ij, globals := absK g.globals } := by
-      refine ⟨⟨fun k _ => hfr0 k, fun k => ?_⟩, ?_⟩
+      refine ⟨⟨fun k _ => hfr0 k, fun k => ?_, hij⟩, ?_⟩
       · show match Frame.find g.globals k with
           | some v => Spec.Eval.find (absK g.globals) k = some (absV v)
           | none => Spec.Eval.find (absK g.globals) k = none
@@ -2360,7 +2379,7 @@ theorem rel0 : Rel g0 env0.vars ctx0 st0 env0 := by
     · subst h; rfl
     · have h' : ([120] == k) = false := by simpa using fun e => h e.symm
       simp [lookup, st0, ctx0, heapGet, Frame.find, h', env0, Spec.Eval.find, absV]
-  refine ⟨⟨fun k _ => hfr k, fun k => by simp [eenv, g0, Frame.find, env0, Spec.Eval.find]⟩, ?_⟩
+  refine ⟨⟨fun k _ => hfr k, fun k => by simp [eenv, g0, Frame.find, env0, Spec.Eval.find], rfl⟩, ?_⟩
   refine ⟨⟨1, false⟩, [⟨0, true⟩], [⟨0, true⟩], rfl, rfl, by simp [alldata], by simp, by simp [st0], ?_⟩
   intro k
   have : lookup st0.heap [⟨0, true⟩] k = lookup st0.heap ctx0 k := by simp [lookup, heapGet, Frame.find, st0, ctx0]
@@ -2414,8 +2433,70 @@ example : (execute gCall [116] [] 4).cls = .ok ∧ (execute gCall [116] [] 4).ch
     intro t ht
     simp only [gCall, List.mem_cons, List.mem_nil_iff, or_false] at ht
     rcases ht with rfl | rfl <;> decide
-  have h := render_refines_lexical_partial gCall rfl hfr [116] [] 4 none false none ⟨fun _ => rfl, fun _ h => by cases h⟩ (fun _ h => by cases h)
+  have h := render_refines_lexical_partial gCall rfl hfr [116] [] 4 none rfl false none ⟨fun _ => rfl, fun _ h => by cases h⟩ (fun _ h => by cases h)
   have hs : Spec.Eval.render gCall.reg (absK gCall.globals) none false [116] (absK []) 4 = .val [91, 76, 93, 76] := by rfl
+  rw [hs] at h
+  exact h
+
+/-! ### `$ij`: the same bundle with injected data {u: 'J'}: the caller `{$ij.u}{call .c}{param p: $ij.u /}{/call}`, the
+    callee (`[{$p}]`, extended by `{$ij.u}`) sees the same injected data: "J[J]J" … and without injected data
+    the specification says error and the render fails -/
+
+def ijRef (p : Nat) : Expr := .dataRef p [105, 106] (.cons (.key p false [117]) .nil)
+
+def tCalleeIj : Registry.Tmpl :=
+  { name := [99], params := [], body := .mk 10 (.cons (.rawText 11 [91]) (.cons (.print 12 (.dataRef 13 [112] .nil) [])
+      (.cons (.rawText 14 [93]) (.cons (.print 15 (ijRef 15) []) .nil)))),
+    autoescape := .unspecified, nsName := [110], nsAutoescape := .unspecified, pos := 9, file := [102], text := [] }
+
+def tCallerIj : Registry.Tmpl :=
+  { name := [116], params := [],
+    body := .mk 1 (.cons (.print 2 (ijRef 2) []) (.cons (.call 3 [99] false none (.value 4 [112] (ijRef 4) .nil)) .nil)),
+    autoescape := .unspecified, nsName := [110], nsAutoescape := .unspecified, pos := 0, file := [102], text := [] }
+
+def gIj (ij : Option (Nat × Frame)) : GEnv :=
+  { reg := [tCallerIj, tCalleeIj], globals := [], ij := ij, msgs := none, tbl := [], oblig := [] }
+
+theorem gIj_frag (ij : Option (Nat × Frame)) : regFrag (gIj ij).reg := by
+  intro t ht
+  simp only [gIj, List.mem_cons, List.mem_nil_iff, or_false] at ht
+  rcases ht with rfl | rfl <;> decide
+
+example : (execute (gIj (some (1, [([117], .str [74])]))) [116] [] 4).cls = .ok ∧
+    (execute (gIj (some (1, [([117], .str [74])]))) [116] [] 4).chunks.flatten = [74, 91, 74, 93, 74] := by
+  have h := render_refines_lexical_partial (gIj (some (1, [([117], .str [74])]))) rfl (gIj_frag _) [116] [] 4
+    (some [([117], .str [74])]) rfl false none ⟨fun _ => rfl, fun _ h => by cases h⟩ (fun _ h => by cases h)
+  have hs : Spec.Eval.render (gIj (some (1, [([117], .str [74])]))).reg (absK (gIj (some (1, [([117], .str [74])]))).globals)
+      (some [([117], .str [74])]) false [116] (absK []) 4 = .val [74, 91, 74, 93, 74] := by rfl
+  rw [hs] at h
+  exact h
+
+example : (execute (gIj none) [116] [] 4).cls = .err ∨ (execute (gIj none) [116] [] 4).cls = .panic := by
+  have h := render_refines_lexical_partial (gIj none) rfl (gIj_frag _) [116] [] 4 none rfl false none
+    ⟨fun _ => rfl, fun _ h => by cases h⟩ (fun _ h => by cases h)
+  have hs : Spec.Eval.render (gIj none).reg (absK (gIj none).globals) none false [116] (absK []) 4 = .error := by rfl
+  rw [hs] at h
+  exact h
+
+/-! ### ordering comparisons are inside: `{if $n < 3}a{elseif $n >= 2.5}b{else}c{/if}` with n = 3: "b" -/
+
+def tOrd : Registry.Tmpl :=
+  { name := [116], params := [],
+    body := .mk 1 (.cons (.ifc 2
+      (.cons 3 (some (.bin .lt 3 (.dataRef 3 [110] .nil) (.int 3 3))) (.mk 4 (.cons (.rawText 4 [97]) .nil))
+      (.cons 5 (some (.bin .ge 5 (.dataRef 5 [110] .nil) (.float 5 0x4004000000000000))) (.mk 6 (.cons (.rawText 6 [98]) .nil))
+      (.cons 7 none (.mk 8 (.cons (.rawText 8 [99]) .nil)) .nil)))) .nil),
+    autoescape := .unspecified, nsName := [110], nsAutoescape := .unspecified, pos := 0, file := [102], text := [] }
+def gOrd : GEnv := { reg := [tOrd], globals := [], ij := none, msgs := none, tbl := [], oblig := [] }
+
+example : (execute gOrd [116] [([110], .int 3)] 4).cls = .ok ∧ (execute gOrd [116] [([110], .int 3)] 4).chunks.flatten = [98] := by
+  have hfr : regFrag gOrd.reg := by
+    intro t ht
+    simp only [gOrd, List.mem_cons, List.mem_nil_iff, or_false] at ht
+    subst ht; decide
+  have h := render_refines_lexical_partial gOrd rfl hfr [116] [([110], .int 3)] 4 none rfl false none
+    ⟨fun _ => rfl, fun _ h => by cases h⟩ (fun _ h => by cases h)
+  have hs : Spec.Eval.render gOrd.reg (absK gOrd.globals) none false [116] (absK [([110], .int 3)]) 4 = .val [98] := by rfl
   rw [hs] at h
   exact h
 
@@ -2441,7 +2522,7 @@ example : (execute gAll [116] [([120], .str [68])] 4).cls = .ok ∧
     intro t ht
     simp only [gAll, List.mem_cons, List.mem_nil_iff, or_false] at ht
     rcases ht with rfl | rfl <;> decide
-  have h := render_refines_lexical_partial gAll rfl hfr [116] [([120], .str [68])] 4 none false none ⟨fun _ => rfl, fun _ h => by cases h⟩ (fun _ h => by cases h)
+  have h := render_refines_lexical_partial gAll rfl hfr [116] [([120], .str [68])] 4 none rfl false none ⟨fun _ => rfl, fun _ h => by cases h⟩ (fun _ h => by cases h)
   have hs : Spec.Eval.render gAll.reg (absK gAll.globals) none false [116] (absK [([120], .str [68])]) 4 = .val [91, 76, 68, 93] := by rfl
   rw [hs] at h
   exact h
@@ -2470,7 +2551,7 @@ example : (execute gData [116] dataLM 4).cls = .ok ∧
     intro t ht
     simp only [gData, List.mem_cons, List.mem_nil_iff, or_false] at ht
     rcases ht with rfl | rfl <;> decide
-  have h := render_refines_lexical_partial gData rfl hfr [116] dataLM 4 none false none ⟨fun _ => rfl, fun _ h => by cases h⟩ (fun _ h => by cases h)
+  have h := render_refines_lexical_partial gData rfl hfr [116] dataLM 4 none rfl false none ⟨fun _ => rfl, fun _ h => by cases h⟩ (fun _ h => by cases h)
   have hs : Spec.Eval.render gData.reg (absK gData.globals) none false [116] (absK dataLM) 4 =
       .val [97, 98, 91, 80, 77, 93, 91, 82, 81, 93] := by rfl
   rw [hs] at h
@@ -2488,7 +2569,7 @@ theorem relL : Rel g0 envL.vars ctx0 stL envL := by
     · subst h; rfl
     · have h' : ([108] == k) = false := by simpa using fun e => h e.symm
       simp [lookup, stL, ctx0, heapGet, Frame.find, h', envL, Spec.Eval.find, absV]
-  refine ⟨⟨fun k _ => hfr k, fun k => by simp [eenv, g0, Frame.find, envL, Spec.Eval.find]⟩, ?_⟩
+  refine ⟨⟨fun k _ => hfr k, fun k => by simp [eenv, g0, Frame.find, envL, Spec.Eval.find], rfl⟩, ?_⟩
   refine ⟨⟨1, false⟩, [⟨0, true⟩], [⟨0, true⟩], rfl, rfl, by simp [alldata], by simp, by simp [stL], ?_⟩
   intro k
   have : lookup stL.heap [⟨0, true⟩] k = lookup stL.heap ctx0 k := by simp [lookup, heapGet, Frame.find, stL, ctx0]
@@ -2523,7 +2604,7 @@ example : (execute gContent [116] [] 4).cls = .ok ∧ (execute gContent [116] []
     intro t ht
     simp only [gContent, List.mem_cons, List.mem_nil_iff, or_false] at ht
     rcases ht with rfl | rfl <;> decide
-  have h := render_refines_lexical_partial gContent rfl hfr [116] [] 4 none false none ⟨fun _ => rfl, fun _ h => by cases h⟩ (fun _ h => by cases h)
+  have h := render_refines_lexical_partial gContent rfl hfr [116] [] 4 none rfl false none ⟨fun _ => rfl, fun _ h => by cases h⟩ (fun _ h => by cases h)
   have hs : Spec.Eval.render gContent.reg (absK gContent.globals) none false [116] (absK []) 4 = .val [91, 40, 76, 41, 93] := by rfl
   rw [hs] at h
   exact h
@@ -2549,7 +2630,7 @@ example : (execute gMsg [116] dataMsg 4).cls = .ok ∧ (execute gMsg [116] dataM
     intro t ht
     simp only [gMsg, List.mem_cons, List.mem_nil_iff, or_false] at ht
     subst ht; decide
-  have h := render_refines_lexical_partial gMsg rfl hfr [116] dataMsg 4 none false none ⟨fun _ => rfl, fun _ h => by cases h⟩ (fun _ h => by cases h)
+  have h := render_refines_lexical_partial gMsg rfl hfr [116] dataMsg 4 none rfl false none ⟨fun _ => rfl, fun _ h => by cases h⟩ (fun _ h => by cases h)
   have hs : Spec.Eval.render gMsg.reg (absK gMsg.globals) none false [116] (absK dataMsg) 4 = .val [72, 111, 117, 116, 51, 115] := by rfl
   rw [hs] at h
   exact h
@@ -2663,7 +2744,7 @@ example : (execute gDir [116] [([120], .str [60, 98, 62, 99])] 4).cls = .ok ∧
     intro t ht
     simp only [gDir, List.mem_cons, List.mem_nil_iff, or_false] at ht
     subst ht; decide
-  have h := render_refines_lexical_partial gDir rfl hfr [116] [([120], .str [60, 98, 62, 99])] 4 none false (some { dirs := some (modelDirSem gDir.tbl) }) ⟨fun _ => rfl, fun _ h => by cases h⟩ (modelDirSem_ok gDir)
+  have h := render_refines_lexical_partial gDir rfl hfr [116] [([120], .str [60, 98, 62, 99])] 4 none rfl false (some { dirs := some (modelDirSem gDir.tbl) }) ⟨fun _ => rfl, fun _ h => by cases h⟩ (modelDirSem_ok gDir)
   have hs : Spec.Eval.render gDir.reg (absK gDir.globals) none false [116] (absK [([120], .str [60, 98, 62, 99])]) 4
       (some { dirs := some (modelDirSem gDir.tbl) }) = .val [38, 108, 116, 59, 98, 38, 103, 116, 59, 99, 60, 98, 62, 99, 60, 98] := by rfl
   rw [hs] at h
@@ -2738,7 +2819,7 @@ example : (execute gMsgB [116] dataMsg 4).cls = .ok ∧
     intro t ht
     simp only [gMsgB, List.mem_cons, List.mem_nil_iff, or_false] at ht
     subst ht; decide
-  have h := render_refines_lexical_partial gMsgB rfl hfr [116] dataMsg 4 none true (some { dirs := none, msgs := some (modelMsgSem bundleB) })
+  have h := render_refines_lexical_partial gMsgB rfl hfr [116] dataMsg 4 none rfl true (some { dirs := none, msgs := some (modelMsgSem bundleB) })
     (modelMsgSem_ok gMsgB bundleB rfl none) (fun _ h => by cases h)
   have hs : Spec.Eval.render gMsgB.reg (absK gMsgB.globals) none true [116] (absK dataMsg) 4
       (some { dirs := none, msgs := some (modelMsgSem bundleB) }) =
@@ -2782,7 +2863,7 @@ example : (execute gAcc [116] dataAcc 4).cls = .ok ∧
     intro t ht
     simp only [gAcc, List.mem_cons, List.mem_nil_iff, or_false] at ht
     rcases ht with rfl | rfl <;> decide
-  have h := render_refines_lexical_partial gAcc rfl hfr [116] dataAcc 4 none false none ⟨fun _ => rfl, fun _ h => by cases h⟩ (fun _ h => by cases h)
+  have h := render_refines_lexical_partial gAcc rfl hfr [116] dataAcc 4 none rfl false none ⟨fun _ => rfl, fun _ h => by cases h⟩ (fun _ h => by cases h)
   have hs : Spec.Eval.render gAcc.reg (absK gAcc.globals) none false [116] (absK dataAcc) 4 =
       .val [97, 98, 58, 84, 50, 91, 49, 97, 93] := by rfl
   rw [hs] at h
